@@ -51,7 +51,7 @@ func auditRun(c *eCase, format string) (lines []string, cb []string, errs string
 	})
 	waf, err := coraza.NewWAF(cfg)
 	if err != nil {
-		return nil, nil, "CONFIGERR " + strings.ReplaceAll(err.Error(), " ", "_")
+		return nil, nil, "CONFIGERR"
 	}
 	runEngCase(waf, c, &[]string{})
 	closeWAF(waf)
@@ -164,7 +164,106 @@ func execAuditConc(a []string) string {
 	return fmt.Sprintf("records=%d bad=%d expected=%d", n, bad, g*m)
 }
 
+// auditiso <predecessor case> <probe case>: one WAF with the probe's audit configuration (Native
+// format); the predecessor runs twice and is closed, then the probe; only the records the probe
+// adds to the log are observed: record written?, section letters
+func execAuditIso(a []string) string {
+	var pred, probe eCase
+	if json.Unmarshal([]byte(a[0]), &pred) != nil || json.Unmarshal([]byte(a[1]), &probe) != nil {
+		return "BADCASE"
+	}
+	auditSeq++
+	file := filepath.Join(os.TempDir(), fmt.Sprintf("auditiso-%d-%d.log", os.Getpid(), auditSeq))
+	defer os.Remove(file)
+	waf, err := coraza.NewWAF(coraza.NewWAFConfig().WithDirectives(auditConfig(&probe, "Native", file)))
+	if err != nil {
+		return "CONFIGERR"
+	}
+	for i := 0; i < 2; i++ {
+		runEngCase(waf, &pred, &[]string{})
+	}
+	before, _ := os.ReadFile(file)
+	runEngCase(waf, &probe, &[]string{})
+	closeWAF(waf)
+	after, _ := os.ReadFile(file)
+	var letters strings.Builder
+	for _, l := range strings.Split(string(after[len(before):]), "\n") {
+		if m := boundaryRe.FindStringSubmatch(l); m != nil {
+			letters.WriteString(m[1])
+		}
+	}
+	w := 0
+	if letters.Len() > 0 {
+		w = 1
+	}
+	return fmt.Sprintf("w=%d parts=%s", w, gen.Field(letters.String()))
+}
+
+func genAuditCase(c *ctx, p engProfile) *eCase {
+	cs := genEngCase(c.r, p)
+	cs.Ae = c.r.Pick("On", "Off", "RelevantOnly", "RelevantOnly", "RelevantOnly")
+	cs.Rs = c.r.Pick("-", "pre:4", "pre:5", "sub:403", "eq:403", "sub:0", "pre:3", "eq:200", "sub:4")
+	cs.Resp = gen.Field(c.r.Pick("200", "404", "403", "500", "302"))
+	cs.Parts = gen.Field(c.r.Pick("ABCFHKZ", "ABCFHZ", "AKZ", "ABCDEFGHIJKZ", "AHZ"))
+	// ctl switches of the audit engine / parts in some rules
+	for ri := range cs.Rules {
+		if cs.Rules[ri].ID != 0 && c.r.Chance(0.2) {
+			l := &cs.Rules[ri].Links[0]
+			if c.r.Chance(0.5) {
+				l.NA = append(l.NA, eNAct{N: "ctlAuditEngine", M: c.r.Pick("On", "Off", "RelevantOnly")})
+			} else {
+				l.NA = append(l.NA, eNAct{N: "ctlAuditLogParts", K: gen.Field(c.r.Pick("+E", "-C", "+K", "-K", "-H", "+IJ", "ABZ", "+E", "-BF"))})
+			}
+		}
+	}
+	// the logging phase is invoked exactly once, last
+	var calls []string
+	for _, cl := range cs.Calls {
+		if cl != "lg" {
+			calls = append(calls, cl)
+		}
+	}
+	cs.Calls = append(calls, "lg")
+	return cs
+}
+
 func init() {
+	engines["auditiso"] = &engine{Exec: execAuditIso, Gen: func(c *ctx) {
+		for i := 0; i < c.n; i++ {
+			probe := genAuditCase(c, engProfiles[[]string{"api", ""}[i%2]])
+			if c.r.Chance(0.7) {
+				probe.Ae = "On" // so that the probe's record (its parts) is there to be compared
+			}
+			// a first rule only the predecessor triggers (ARGS_GET:trig=1) changes the audit settings at run time:
+			// the probe must still be logged with the configured parts and engine
+			g := eRule{ID: 5, Ph: 1, Mk: "-", Rt: "-", Sa: "-", Sev: -1, Tags: []string{}, Log: false, Audit: c.r.Chance(0.5)}
+			l := eLink{Tg: []eTarget{{V: "ARGS_GET", K: gen.Field("trig"), X: []string{}}}, Op: &eOp{N: "streq", A: gen.Field("1")}, Tfs: []string{}, NA: []eNAct{}}
+			for k := 1 + c.r.Intn(2); k > 0; k-- {
+				if c.r.Chance(0.3) {
+					l.NA = append(l.NA, eNAct{N: "ctlAuditEngine", M: c.r.Pick("On", "Off", "RelevantOnly")})
+				} else {
+					l.NA = append(l.NA, eNAct{N: "ctlAuditLogParts", K: gen.Field(c.r.Pick("-C", "-K", "-H", "-BF", "+E", "+IJ", "ABZ", "-F", "-B", "-CFH"))})
+				}
+			}
+			g.Links = []eLink{l}
+			probe.Rules = append([]eRule{g}, probe.Rules...)
+			pred := *probe
+			other := genEngCase(c.r, engProfile{})
+			pred.Get, pred.Post, pred.Hdr, pred.Calls = other.Get, other.Post, other.Hdr, other.Calls
+			pred.Get = append([][2]string{{gen.Field("trig"), gen.Field("1")}}, pred.Get...)
+			if c.r.Chance(0.6) {
+				pred.Calls = []string{"h1", "b2", "h3", "b4", "lg"}
+			}
+			b1, _ := json.Marshal(&pred)
+			b2, _ := json.Marshal(probe)
+			obs := c.run("auditiso", string(b1), string(b2))
+			if strings.HasPrefix(obs, "w=1") {
+				c.stats.Hit("probe-record:written")
+			} else {
+				c.stats.Hit("probe-record:none")
+			}
+		}
+	}}
 	engines["auditconc"] = &engine{Exec: execAuditConc, Gen: func(c *ctx) {
 		for i := 0; i < c.n; i++ {
 			c.run("auditconc", strconv.Itoa(8+c.r.Intn(24)), strconv.Itoa(50+c.r.Intn(150)))
@@ -172,31 +271,7 @@ func init() {
 	}}
 	engines["audit"] = &engine{Exec: execAudit, Gen: func(c *ctx) {
 		for i := 0; i < c.n; i++ {
-			p := engProfiles[[]string{"api", "", "ctl"}[i%3]]
-			cs := genEngCase(c.r, p)
-			cs.Ae = c.r.Pick("On", "Off", "RelevantOnly", "RelevantOnly", "RelevantOnly")
-			cs.Rs = c.r.Pick("-", "pre:4", "pre:5", "sub:403", "eq:403", "sub:0", "pre:3", "eq:200", "sub:4")
-			cs.Resp = gen.Field(c.r.Pick("200", "404", "403", "500", "302"))
-			cs.Parts = gen.Field(c.r.Pick("ABCFHKZ", "ABCFHZ", "AKZ", "ABCDEFGHIJKZ", "AHZ"))
-			// ctl switches of the audit engine / parts in some rules
-			for ri := range cs.Rules {
-				if cs.Rules[ri].ID != 0 && c.r.Chance(0.2) {
-					l := &cs.Rules[ri].Links[0]
-					if c.r.Chance(0.5) {
-						l.NA = append(l.NA, eNAct{N: "ctlAuditEngine", M: c.r.Pick("On", "Off", "RelevantOnly")})
-					} else {
-						l.NA = append(l.NA, eNAct{N: "ctlAuditLogParts", K: gen.Field(c.r.Pick("+E", "-C", "+K", "-K", "-H", "+IJ", "ABZ", "+E", "-BF"))})
-					}
-				}
-			}
-			// the logging phase is invoked exactly once, last
-			var calls []string
-			for _, cl := range cs.Calls {
-				if cl != "lg" {
-					calls = append(calls, cl)
-				}
-			}
-			cs.Calls = append(calls, "lg")
+			cs := genAuditCase(c, engProfiles[[]string{"api", "", "ctl"}[i%3]])
 			b, _ := json.Marshal(cs)
 			obs := c.run("audit", string(b))
 			c.stats.Hit("ae:" + cs.Ae)
